@@ -18,6 +18,12 @@ import subprocess
 import sys
 import time
 import traceback
+import warnings
+
+# Generated host programs seed and use the global `random` generator on purpose (the agent must not disturb it).  A
+# generator of such a program that is finalised later - while Hypothesis draws the next case - runs its `finally:` block
+# then, and Hypothesis reports that as "random used inside a strategy".  It is not: no strategy of ours uses `random`.
+warnings.filterwarnings('ignore', message='Do not use the `random` module inside strategies')
 
 ROOT = os.path.dirname(os.path.dirname(os.path.abspath(__file__)))
 REPO = os.environ.get('VERIF_REPO', '/repo')
